@@ -545,21 +545,21 @@ impl ArrayLike for RepeatedArray {
 	}
 
 	fn get(&self, index: usize) -> Result<Option<Val>> {
-		if index > self.total_len {
+		if index >= self.total_len {
 			return Ok(None);
 		}
 		self.data.get(index % self.data.len())
 	}
 
 	fn get_lazy(&self, index: usize) -> Option<Thunk<Val>> {
-		if index > self.total_len {
+		if index >= self.total_len {
 			return None;
 		}
 		self.data.get_lazy(index % self.data.len())
 	}
 
 	fn get_cheap(&self, index: usize) -> Option<Val> {
-		if index > self.total_len {
+		if index >= self.total_len {
 			return None;
 		}
 		self.data.get_cheap(index % self.data.len())
